@@ -1,5 +1,145 @@
 import WuffsVerif.Common.Line
-/-! Line driver for C10 — stub, not built yet. -/
-open WuffsVerif.Line
+import WuffsVerif.Model.Linkage
+import WuffsVerif.Model.Effects
+import WuffsVerif.Model.CNames
+/-! Line driver for C10 (hermeticity).  Ops:
+  decls <pkg> <item>*                -> sorted `kind|name|linkage|qual` list (or `-`)
+  exports plain|static <pkg> <item>* -> sorted exported function names (or `-`)
+     item:  S:<pub|pri>:<hex msg> | K:<pub|pri>:<NAME>:<scalar|array>
+          | T:<pub|pri>:<name>:<classy|plain>:<iface,iface|-> | F:<pub|pri>:<recv|->:<name>:<pure|impure|coro>:<choosy|->
+  undefs <sym>*                      -> ok | external:<sym>
+  purecall <method> <effect>         -> unchanged (pure) | may-change
+  tcheck (M <pure|impure> <stmt> <expr>)*  -> ok | reject-parse | reject-check   (prefix notation, see below)
+  classify <name>                    -> class
+-/
+open WuffsVerif WuffsVerif.Line
 
-def main : IO Unit := runPure (fun _ => "bad-op")
+namespace C10
+open WuffsVerif.Linkage
+
+def vis? : String → Option Bool
+  | "pub" => some true | "pri" => some false | _ => none
+
+def addItem (p : Pkg) (item : String) : Option Pkg :=
+  match item.splitOn ":" with
+  | ["S", v, hx] => do
+      let pub ← vis? v
+      let bs ← fromHex hx
+      let msg := String.ofList (bs.map (fun b => Char.ofNat b.toNat))
+      pure { p with statuses := p.statuses ++ [⟨pub, msg⟩] }
+  | ["K", v, name, k] => do
+      let pub ← vis? v
+      pure { p with consts := p.consts ++ [⟨pub, name, k == "scalar"⟩] }
+  | ["T", v, name, k, im] => do
+      let pub ← vis? v
+      let impls := if im == "-" then [] else im.splitOn ","
+      pure { p with structs := p.structs ++ [⟨pub, name, k == "classy", impls⟩] }
+  | ["F", v, recv, name, eff, ch] => do
+      let pub ← vis? v
+      let e ← match eff with
+        | "pure" => some Effect.pure | "impure" => some Effect.impure | "coro" => some Effect.coro | _ => none
+      pure { p with funcs := p.funcs ++ [⟨pub, if recv == "-" then "" else recv, name, e, ch == "choosy"⟩] }
+  | _ => none
+
+def parsePkg (name : String) (items : List String) : Option Pkg :=
+  items.foldlM addItem ⟨name, [], [], [], []⟩
+
+/-! prefix-notation parser for effect programs (driver only) -/
+open WuffsVerif.Effects
+
+def eff? : String → Option Eff
+  | "pure" => some .pure | "impure" => some .impure | _ => none
+
+def parseSRef : List String → Option (SRef × List String)
+  | "sa" :: i :: r => i.toNat?.map (fun n => (.arg n, r))
+  | "sl" :: v :: r => v.toNat?.map (fun n => (.loc n, r))
+  | "sf" :: f :: r => f.toNat?.map (fun n => (.fld n, r))
+  | "pal" :: r => some (.pal, r)
+  | _ => none
+
+partial def parseExpr : List String → Option (Expr × List String)
+  | "lit" :: n :: r => n.toNat?.map (fun k => (.lit k, r))
+  | "loc" :: v :: r => v.toNat?.map (fun k => (.loc k, r))
+  | "fld" :: f :: r => f.toNat?.map (fun k => (.fld k, r))
+  | "arg" :: r => some (.arg, r)
+  | "arr" :: f :: i :: r => do let a ← f.toNat?; let b ← i.toNat?; pure (.arr a b, r)
+  | "add" :: r => do
+      let (l, r1) ← parseExpr r
+      let (rr, r2) ← parseExpr r1
+      pure (.add l rr, r2)
+  | "call" :: mk :: m :: r => do
+      let e ← eff? mk; let k ← m.toNat?
+      let (a, r1) ← parseExpr r
+      pure (.call e k a, r1)
+  | _ => none
+
+partial def parseStmt : List String → Option (Stmt × List String)
+  | "skip" :: r => some (.skip, r)
+  | "seq" :: r => do
+      let (a, r1) ← parseStmt r
+      let (b, r2) ← parseStmt r1
+      pure (.seq a b, r2)
+  | "ite" :: r => do
+      let (c, r1) ← parseExpr r
+      let (t, r2) ← parseStmt r1
+      let (e, r3) ← parseStmt r2
+      pure (.ite c t e, r3)
+  | "setloc" :: v :: r => do let k ← v.toNat?; let (e, r1) ← parseExpr r; pure (.setLoc k e, r1)
+  | "setfld" :: f :: r => do let k ← f.toNat?; let (e, r1) ← parseExpr r; pure (.setFld k e, r1)
+  | "setarg" :: r => do let (e, r1) ← parseExpr r; pure (.setArg e, r1)
+  | "setarr" :: f :: i :: r => do
+      let a ← f.toNat?; let b ← i.toNat?
+      let (e, r1) ← parseExpr r
+      pure (.setArr a b e, r1)
+  | "setbuf" :: r => do
+      let (s, r1) ← parseSRef r
+      let (e, r2) ← parseExpr r1
+      pure (.setBuf s e, r2)
+  | "bind" :: v :: r => do let k ← v.toNat?; let (s, r1) ← parseSRef r; pure (.bind k s, r1)
+  | "copy" :: mk :: r => do
+      let e ← eff? mk
+      let (d, r1) ← parseSRef r
+      let (s, r2) ← parseSRef r1
+      pure (.copy e d s, r2)
+  | "calls" :: mk :: m :: r => do
+      let e ← eff? mk; let k ← m.toNat?
+      let (a, r1) ← parseExpr r
+      pure (.callS e k a, r1)
+  | _ => none
+
+partial def parseProg (acc : Prog) : List String → Option Prog
+  | [] => some acc
+  | "M" :: ef :: r => do
+      let e ← eff? ef
+      let (b, r1) ← parseStmt r
+      let (res, r2) ← parseExpr r1
+      parseProg (acc ++ [⟨e, b, res⟩]) r2
+  | _ => none
+
+def step (l : List String) : String :=
+  match l with
+  | "decls" :: name :: items =>
+    match parsePkg name items with
+    | some p => declsText p
+    | none => "bad-op"
+  | "exports" :: mode :: name :: items =>
+    match parsePkg name items with
+    | some p => exportsText (mode == "static") p
+    | none => "bad-op"
+  | "undefs" :: syms =>
+    match syms.find? (fun s => s != "-" && !(CNames.memNames.contains s || CNames.allocNames.contains s)) with
+    | some s => "external:" ++ s
+    | none => "ok"
+  | ["purecall", _, eff] => if eff == "pure" then "unchanged" else "may-change"
+  | "tcheck" :: rest =>
+    match parseProg [] rest with
+    | some p =>
+      match tcheck p with
+      | .ok => "ok" | .rejectParse => "reject-parse" | .rejectCheck => "reject-check"
+    | none => "bad-op"
+  | ["classify", n] => (CNames.classify n).str
+  | _ => "bad-op"
+
+end C10
+
+def main : IO Unit := runPure C10.step
